@@ -1,7 +1,466 @@
-//! C03 — not implemented yet (see DESIGN.md section 4).
-use kit::Run;
-use serde_json::Value;
+//! C03 — signing round trip: signed output validates and reports what was signed.
+//! S-inp over configurations: format x signing alg x claim hash alg x {compressed} x {claim v1,v2} x
+//! {embedded, sidecar, remote+embedded} x definitions from kit::defs (small-scope generator).
+//! The sub-products enumerated are named in the evidence (`spaces`); nothing is sampled.
+//!
+//! Mutants caught (tools/mutant_run.sh H <diff> C03 quick):
+//!   /verif/mutants/C03-usercbor-drop-last-byte.diff (see the report at the end of the session)
+//!   /verif/mutants/C03-title-dropped-when-compressed.diff
 
-pub fn run(_run: &Run, _replay: Option<&Value>) {
-    kit::ev::machinery("C03: check not implemented");
+use c2pa::{Builder, BuilderIntent, DigitalSourceType, Reader};
+use kit::{
+    assets,
+    defs::{self, Def, Kind},
+    par, sdk, Run,
+};
+use serde_json::{json, Value};
+use std::io::Cursor;
+
+pub const REMOTE_URL: &str = "https://verif.invalid/manifests/m.c2pa";
+
+#[derive(Clone, Debug)]
+pub struct Case {
+    pub asset: String,
+    pub alg: String,
+    pub hash: String,
+    pub compress: bool,
+    pub ver: u8,
+    /// "embedded" | "sidecar" | "remote"
+    pub mode: String,
+    pub trust: bool,
+    pub def: Def,
+    /// signer fault (kit::defs::FaultySigner); always 0 in C03 itself, enumerated by C40
+    pub fault: u8,
+}
+
+impl Case {
+    pub fn base(asset: &str) -> Case {
+        Case { asset: asset.into(), alg: "ed25519".into(), hash: "sha256".into(), compress: false, ver: 2, mode: "embedded".into(), trust: false, def: Def::rich(), fault: 0 }
+    }
+    pub fn id(&self) -> String {
+        format!("{} {} {} c={} v={} {} trust={} [{}]", self.asset, self.alg, self.hash, self.compress as u8, self.ver, self.mode, self.trust as u8, self.def.id())
+    }
+    pub fn to_json(&self) -> Value {
+        json!({"asset": self.asset, "alg": self.alg, "hash": self.hash, "compress": self.compress, "ver": self.ver, "mode": self.mode, "trust": self.trust, "def": self.def.to_json(), "fault": self.fault})
+    }
+    pub fn from_json(v: &Value) -> Case {
+        Case {
+            asset: v["asset"].as_str().unwrap_or("jpeg").into(),
+            alg: v["alg"].as_str().unwrap_or("ed25519").into(),
+            hash: v["hash"].as_str().unwrap_or("sha256").into(),
+            compress: v["compress"].as_bool().unwrap_or(false),
+            ver: v["ver"].as_u64().unwrap_or(2) as u8,
+            mode: v["mode"].as_str().unwrap_or("embedded").into(),
+            trust: v["trust"].as_bool().unwrap_or(false),
+            def: Def::from_json(&v["def"]),
+            fault: v["fault"].as_u64().unwrap_or(0) as u8,
+        }
+    }
+    pub fn settings(&self) -> Vec<String> {
+        let mut v = vec![];
+        if self.compress {
+            v.push(r#"{"core":{"prefer_compress_manifests":true}}"#.to_string());
+        }
+        if self.trust {
+            v.push(trust_settings());
+        }
+        v
+    }
+    pub fn ctx(&self) -> c2pa::Context {
+        let s = self.settings();
+        let r: Vec<&str> = s.iter().map(|x| x.as_str()).collect();
+        sdk::ctx_with(&r)
+    }
+}
+
+pub fn trust_settings() -> String {
+    let anchors = String::from_utf8_lossy(&sdk::fixture("certs/trust/test_cert_root_bundle.pem")).to_string();
+    let cfg = String::from_utf8_lossy(&sdk::fixture("certs/trust/store.cfg")).to_string();
+    json!({"trust": {"trust_anchors": anchors, "trust_config": cfg}}).to_string()
+}
+
+/// What happened, in a form two flavours (sync/async) can be compared on.
+pub struct Outcome {
+    /// short class for the outcome histogram
+    pub class: String,
+    /// (key, what) of oracle failures
+    pub failures: Vec<(String, String)>,
+    /// reached the read-back comparison
+    pub compared: bool,
+}
+
+/// Everything that the signing side does, sync flavour. Returns (asset bytes, manifest bytes).
+pub fn build_and_sign(c: &Case, data: &[u8], mime: &str) -> Result<c2pa::Result<(Vec<u8>, Vec<u8>)>, String> {
+    par::guard(|| {
+        let signer = defs::FaultySigner { inner: sdk::fixture_signer(&c.alg), fault: c.fault };
+        let mut b = Builder::from_context(c.ctx()).with_definition(c.def.definition(c.ver, Some(&c.hash)))?;
+        b.set_intent(BuilderIntent::Create(DigitalSourceType::DigitalCapture));
+        c.def.apply(&mut b, c.ver)?;
+        match c.mode.as_str() {
+            "sidecar" => {
+                b.set_no_embed(true);
+            }
+            "remote" => {
+                b.set_remote_url(REMOTE_URL);
+            }
+            _ => {}
+        }
+        let mut dst = Cursor::new(Vec::new());
+        let manifest = b.sign(&signer, mime, &mut Cursor::new(data), &mut dst)?;
+        Ok((dst.into_inner(), manifest))
+    })
+}
+
+pub fn read_back(c: &Case, mime: &str, out: &[u8], manifest: &[u8]) -> Result<c2pa::Result<Reader>, String> {
+    par::guard(|| {
+        let rd = Reader::from_context(c.ctx());
+        if c.mode == "sidecar" {
+            rd.with_manifest_data_and_stream(manifest, mime, Cursor::new(out))
+        } else {
+            rd.with_stream(mime, Cursor::new(out))
+        }
+    })
+}
+
+fn short(s: &str) -> String {
+    if s.chars().count() > 40 {
+        format!("{}..({} chars)", s.chars().take(32).collect::<String>(), s.chars().count())
+    } else {
+        s.to_string()
+    }
+}
+
+/// The oracle on the reported active manifest (DESIGN.md C03). Pure function of the report JSON + resources.
+pub fn judge_report(c: &Case, mime: &str, rd: &Reader, failures: &mut Vec<(String, String)>) {
+    let j: Value = serde_json::from_str(&rd.json()).unwrap_or(Value::Null);
+    if std::env::var("VERIF_DUMP").is_ok() {
+        eprintln!("{}", rd.json());
+    }
+    let state = sdk::state_name(rd.validation_state());
+    let want = if c.trust { "Trusted" } else { "Valid" };
+    if state != want {
+        failures.push((format!("state want={want} got={state} mode={} v={} c={}", c.mode, c.ver, c.compress as u8),
+            format!("read back state {state}, codes {:?}", kit::canon::codes(rd).iter().filter(|x| x.contains("/failure")).collect::<Vec<_>>())));
+    }
+    let Some(label) = j["active_manifest"].as_str() else {
+        failures.push(("no-active-manifest".into(), "report has no active manifest".into()));
+        return;
+    };
+    let m = &j["manifests"][label];
+    // title / format / claim generator
+    if m["title"].as_str() != Some(defs::TITLE) {
+        failures.push(("title".into(), format!("reported title {:?}", m["title"])));
+    }
+    // claim v2 has no format field (dc:format was removed from the claim); when a format is reported it must be the asset's
+    let fmt_ok = match m["format"].as_str() { Some(f) => f == mime, None => c.ver >= 2 };
+    if !fmt_ok {
+        failures.push((format!("format want={mime} v={}", c.ver), format!("reported format {:?}", m["format"])));
+    }
+    let cgi = &m["claim_generator_info"][0];
+    if cgi["name"].as_str() != Some(defs::GEN_NAME) || cgi["version"].as_str() != Some(defs::GEN_VERSION) {
+        failures.push(("claim-generator-info".into(), format!("reported {}", cgi)));
+    }
+    // redactions: none supplied
+    if !(m["redactions"].is_null() || m["redactions"].as_array().map(|a| a.is_empty()).unwrap_or(false)) {
+        failures.push(("redactions".into(), format!("reported redactions {} although none were supplied", m["redactions"])));
+    }
+    // assertions (through the API the property names: Reader::active_manifest().assertions())
+    let empty = vec![];
+    let reported: Vec<Value> = rd
+        .active_manifest()
+        .map(|am| {
+            am.assertions()
+                .iter()
+                .map(|a| {
+                    json!({"label": a.label(), "instance": a.instance(), "data": a.value().ok().cloned().unwrap_or(Value::Null),
+                           "kind": if matches!(a.kind(), c2pa::ManifestAssertionKind::Json) { "Json" } else { "Cbor" }})
+                })
+                .collect()
+        })
+        .unwrap_or_default();
+    let reported = &reported;
+    let supplied = c.def.user_assertions();
+    for (label, kind, data) in &supplied {
+        let hits: Vec<&Value> = reported.iter().filter(|a| a["label"].as_str() == Some(label.as_str())).collect();
+        let lk = short(label);
+        match hits.len() {
+            0 => {
+                let near: Vec<String> = reported.iter().filter_map(|a| a["label"].as_str()).filter(|l| l.starts_with("org.verif")).map(short).collect();
+                failures.push((format!("assertion-missing label={lk}"), format!("supplied label not reported; org.verif labels reported: {near:?}")));
+            }
+            1 => {
+                if hits[0]["data"] != *data {
+                    let d = crate::c22::first_diff(data, &hits[0]["data"], "").unwrap_or_default();
+                    let at: String = d.split(|ch| ch == ' ' || ch == ':').next().unwrap_or("").to_string();
+                    failures.push((format!("assertion-data label={lk} kind={kind:?} at={at}"), format!("reported data differs from supplied: {}", short(&d))));
+                }
+                let is_json = hits[0]["kind"].as_str() == Some("Json");
+                if is_json != (*kind == Kind::Json) {
+                    failures.push((format!("assertion-kind label={lk} kind={kind:?}"), format!("reported kind {:?}", hits[0]["kind"])));
+                }
+            }
+            n => failures.push((format!("assertion-duplicated label={lk}"), format!("reported {n} times"))),
+        }
+    }
+    for a in reported {
+        let l = a["label"].as_str().unwrap_or("");
+        let is_supplied = supplied.iter().any(|(sl, _, _)| sl == l);
+        let allowed = ["c2pa.actions", "c2pa.hash.", "c2pa.thumbnail.", "c2pa.ingredient"].iter().any(|p| l.starts_with(p));
+        if !is_supplied && !allowed {
+            failures.push((format!("assertion-extra label={}", short(l)), "reported assertion that was neither supplied nor documented as added by the SDK".into()));
+        }
+    }
+    // user actions: a subsequence (in order) of the reported actions
+    let mut reported_actions: Vec<&Value> = vec![];
+    for a in reported {
+        if a["label"].as_str().unwrap_or("").starts_with("c2pa.actions") {
+            if let Some(list) = a["data"]["actions"].as_array() {
+                reported_actions.extend(list.iter());
+            }
+        }
+    }
+    let mut pos = 0usize;
+    for ua in c.def.user_actions() {
+        let found = reported_actions[pos..].iter().position(|ra| ra["action"] == ua["action"] && ra["parameters"]["description"] == ua["parameters"]["description"]);
+        match found {
+            Some(i) => pos += i + 1,
+            None => {
+                failures.push((format!("action-missing action={}", ua["action"].as_str().unwrap_or("")),
+                    format!("reported actions: {:?}", reported_actions.iter().map(|r| r["action"].as_str().unwrap_or("?")).collect::<Vec<_>>())));
+            }
+        }
+    }
+    // ingredients
+    let rep_ings = m["ingredients"].as_array().unwrap_or(&empty);
+    let sup_ings = c.def.ingredient_inputs(c.ver);
+    if rep_ings.len() != sup_ings.len() {
+        failures.push((format!("ingredient-count want={} got={}", sup_ings.len(), rep_ings.len()), "number of reported ingredients differs".into()));
+    }
+    for s in &sup_ings {
+        match rep_ings.iter().find(|r| r["title"].as_str() == Some(s.title.as_str())) {
+            None => failures.push((format!("ingredient-missing rel={}", s.relationship), format!("ingredient {:?} not reported", s.title))),
+            Some(r) => {
+                if r["relationship"].as_str() != Some(s.relationship) || r["format"].as_str() != Some(s.mime) {
+                    failures.push((format!("ingredient-fields rel={}", s.relationship), format!("reported relationship {:?} format {:?}", r["relationship"], r["format"])));
+                }
+                if s.signed != r["active_manifest"].is_string() {
+                    failures.push((format!("ingredient-manifest rel={} signed={}", s.relationship, s.signed), format!("reported active_manifest {:?}", r["active_manifest"])));
+                }
+            }
+        }
+    }
+    // thumbnail
+    if c.def.thumbnail {
+        match m["thumbnail"]["identifier"].as_str() {
+            None => failures.push(("thumbnail-missing".into(), "explicit thumbnail not reported".into())),
+            Some(id) => {
+                if m["thumbnail"]["format"].as_str() != Some("image/png") {
+                    failures.push(("thumbnail-format".into(), format!("reported thumbnail format {:?}", m["thumbnail"]["format"])));
+                }
+                let mut buf = Cursor::new(Vec::new());
+                match par::guard(|| rd.resource_to_stream(id, &mut buf)) {
+                    Ok(Ok(_)) => {
+                        if buf.into_inner() != defs::thumbnail_bytes() {
+                            failures.push(("thumbnail-bytes".into(), "reported thumbnail bytes differ from the supplied ones".into()));
+                        }
+                    }
+                    Ok(Err(e)) => failures.push(("thumbnail-unreadable".into(), format!("{e:?}"))),
+                    Err(p) => failures.push(("thumbnail-panic".into(), p)),
+                }
+            }
+        }
+    } else if m["thumbnail"].is_object() {
+        failures.push(("thumbnail-unexpected".into(), "thumbnail reported although none was supplied and auto thumbnails are off".into()));
+    }
+}
+
+pub fn run_case(c: &Case) -> Outcome {
+    let t0 = std::time::Instant::now();
+    let o = run_case_inner(c);
+    if std::env::var("VERIF_SLOW").is_ok() && t0.elapsed().as_millis() > 100 {
+        eprintln!("slow {} ms: {} -> {}", t0.elapsed().as_millis(), c.id(), o.class);
+    }
+    o
+}
+
+fn run_case_inner(c: &Case) -> Outcome {
+    let a = assets::by_name(&c.asset);
+    let mut failures = vec![];
+    let remote_unsupported = c.mode == "remote" && !c2pa::verif_hooks::supports_remote_ref(a.mime);
+    let (out, manifest) = match build_and_sign(c, &a.data, a.mime) {
+        Err(p) => {
+            failures.push((format!("sign-panic mode={}", c.mode), p));
+            return Outcome { class: "sign-panic".into(), failures, compared: false };
+        }
+        Ok(Err(e)) => {
+            let k = sdk::err_kind(&e);
+            if remote_unsupported {
+                return Outcome { class: format!("sign-err-remote-unsupported:{k}"), failures, compared: false };
+            }
+            failures.push((format!("sign-error kind={k} mode={} v={} c={}", c.mode, c.ver, c.compress as u8), format!("{e:?}")));
+            return Outcome { class: format!("sign-err:{k}"), failures, compared: false };
+        }
+        Ok(Ok(x)) => x,
+    };
+    let rd = match read_back(c, a.mime, &out, &manifest) {
+        Err(p) => {
+            failures.push((format!("read-panic mode={}", c.mode), p));
+            return Outcome { class: "read-panic".into(), failures, compared: false };
+        }
+        Ok(Err(e)) => {
+            failures.push((format!("read-error kind={} mode={} v={} c={}", sdk::err_kind(&e), c.mode, c.ver, c.compress as u8), format!("{e:?}")));
+            return Outcome { class: format!("read-err:{}", sdk::err_kind(&e)), failures, compared: false };
+        }
+        Ok(Ok(r)) => r,
+    };
+    judge_report(c, a.mime, &rd, &mut failures);
+    let class = if failures.is_empty() { format!("ok:{}", sdk::state_name(rd.validation_state())) } else { "oracle-failure".to_string() };
+    Outcome { class, failures, compared: true }
+}
+
+fn execute(run: &Run, name: &str, cases: &[Case]) {
+    let stats = defs::KeyStats::default();
+    run.space(name, cases.len() as u64, true);
+    let t0 = run.elapsed();
+    par::for_each(cases, |c| {
+        let o = run_case(c);
+        run.eval();
+        run.outcome(o.class.clone());
+        if o.compared {
+            run.nontrivial(c.id());
+        }
+        for (k, w) in o.failures {
+            // key: what fails first, then the asset family and definition-independent discriminators
+            stats.add(&k, &format!("{}: {w}", c.id()));
+            run.violation(format!("{k} asset={}", c.asset), format!("{}: {w}", c.id()), c.to_json());
+        }
+    });
+    stats.dump(name);
+    if std::env::var("VERIF_DEBUG").is_ok() {
+        eprintln!("C03 {name}: {} cases in {:.1}s", cases.len(), run.elapsed() - t0);
+    }
+}
+
+pub fn run(run: &Run, replay: Option<&Value>) {
+    run.rule("cases = configurations (asset, signing alg, claim hash alg, compressed, claim version, embedded|sidecar|remote+embedded, trust anchors, definition); \
+              each is signed with Builder::sign (intent Create) and read back with Reader; the sub-products enumerated are listed in `spaces`. \
+              non-trivial = distinct configurations whose signing and reading both succeeded, so that the reported manifest was compared field by field with what was supplied.");
+    run.assume("intent Create(DigitalCapture): the SDK documents adding a c2pa.created action; auto thumbnails are disabled so a thumbnail is reported iff one was supplied");
+    run.assume("definitions avoid floats; labels follow the C2PA label grammar (ALPHA / DIGIT / '-' / '_' components separated by '.')");
+    run.assume("remote+embedded on a format whose handler has no remote-reference writer may fail (outcome class sign-err-remote-unsupported); everything else must sign");
+    if let Some(c) = replay {
+        let case = Case::from_json(c);
+        let o = run_case(&case);
+        println!("replay {}: class {}", case.id(), o.class);
+        run.eval();
+        for (k, w) in o.failures {
+            println!("  FAIL {k}: {w}");
+            run.violation(format!("{k} asset={}", case.asset), w, c.clone());
+        }
+        return;
+    }
+    let all = assets::all();
+    // determinism: one case twice, canonical reports must agree
+    {
+        let c = Case::base("jpeg");
+        let a = assets::by_name("jpeg");
+        let mut canons = vec![];
+        for _ in 0..2 {
+            match build_and_sign(&c, &a.data, a.mime) {
+                Ok(Ok((out, man))) => match read_back(&c, a.mime, &out, &man) {
+                    Ok(Ok(rd)) => canons.push(defs::view(&rd)),
+                    x => kit::ev::machinery(format!("C03 baseline read failed: {:?}", x.map(|r| r.map(|_| ())))),
+                },
+                x => kit::ev::machinery(format!("C03 baseline sign failed: {:?}", x.map(|r| r.map(|_| ())))),
+            }
+            run.eval();
+        }
+        if canons[0] != canons[1] {
+            kit::ev::machinery(format!("C03: two executions of the same case give different canonical reports: {:?}", crate::c22::first_diff(&canons[0], &canons[1], "")));
+        }
+    }
+    let names: Vec<&str> = all.iter().map(|a| a.name).collect();
+    let algs: Vec<&str> = sdk::ALGS.iter().map(|x| x.0).collect();
+    let hashes = ["sha256", "sha384", "sha512"];
+    let modes = ["embedded", "sidecar", "remote"];
+    let core = defs::core_defs();
+    let thorough = run.tier.is_thorough();
+
+    if !thorough {
+        // A: format x alg x hash
+        let mut v = vec![];
+        for n in &names { for a in &algs { for h in &hashes {
+            v.push(Case { alg: a.to_string(), hash: h.to_string(), ..Case::base(n) });
+        }}}
+        execute(run, "A: asset(19) x signing alg(7) x claim hash alg(3) [plain, v2, embedded, rich definition]", &v);
+        // B: format x settings
+        let mut v = vec![];
+        for n in &names { for comp in [false, true] { for ver in [1u8, 2] { for m in &modes {
+            v.push(Case { compress: comp, ver, mode: m.to_string(), ..Case::base(n) });
+        }}}}
+        execute(run, "B: asset(19) x compressed(2) x claim version(2) x {embedded,sidecar,remote+embedded} [ed25519, sha256, rich definition]", &v);
+        // C: format x 8 definitions
+        let mut v = vec![];
+        for n in &names { for d in &core {
+            v.push(Case { def: d.clone(), ..Case::base(n) });
+        }}
+        execute(run, "C: asset(19) x core definitions(8)", &v);
+        // D: trust anchors configured
+        let mut v = vec![];
+        for n in &names { for a in &algs {
+            v.push(Case { alg: a.to_string(), trust: true, ..Case::base(n) });
+        }}
+        execute(run, "D: asset(19) x signing alg(7) with the fixture root bundle as trust anchors (must be Trusted)", &v);
+        // E: all definitions on one format
+        let v: Vec<Case> = defs::all_defs().into_iter().map(|d| Case { def: d, ..Case::base("jpeg") }).collect();
+        execute(run, "E: jpeg x all 1152 generated definitions (64 assertion subsets x thumbnail x 0..2 ingredients x 0..2 actions)", &v);
+        // F: payload size sweep across the CBOR length boundaries
+        let mut v = vec![];
+        for n in ["jpeg", "png"] { for k in [Kind::Cbor, Kind::Json] { for len in defs::sweep_lengths(false) {
+            v.push(Case { def: Def::sweep(k, len), ..Case::base(n) });
+        }}}
+        execute(run, "F: {jpeg,png} x {cbor,json} x every payload string length in 0..=40, 236..=270, 65500..=65560", &v);
+    } else {
+        // T1: the full product over the core definitions (compression costs ~1 s of CPU per case inside the SDK, so it is
+        // fully crossed with asset, version, mode and definition, and with the algorithms on one asset per handler family)
+        let mut v = vec![];
+        for n in &names { for a in &algs { for h in &hashes { for ver in [1u8, 2] { for m in &modes { for d in &core {
+            v.push(Case { asset: n.to_string(), alg: a.to_string(), hash: h.to_string(), compress: false, ver, mode: m.to_string(), trust: false, def: d.clone(), fault: 0 });
+        }}}}}}
+        execute(run, "T1a: full product asset(19) x alg(7) x hash(3) x version(2) x mode(3) x core definitions(8), uncompressed", &v);
+        let mut v = vec![];
+        for n in &names { for ver in [1u8, 2] { for m in &modes { for d in &core {
+            v.push(Case { asset: n.to_string(), compress: true, ver, mode: m.to_string(), def: d.clone(), ..Case::base(n) });
+        }}}}
+        for n in ["jpeg", "png", "wav", "tiff", "svg", "mp3", "mp4"] { for a in &algs { for h in &hashes {
+            v.push(Case { alg: a.to_string(), hash: h.to_string(), compress: true, ..Case::base(n) });
+        }}}
+        execute(run, "T1b: compressed manifests: asset(19) x version(2) x mode(3) x core definitions(8), and {jpeg,png,wav,tiff,svg,mp3,mp4} x alg(7) x hash(3)", &v);
+        // T2: all definitions on one format per handler family, crossed with version (and with compression on jpeg)
+        let mut v = vec![];
+        for n in ["jpeg", "png", "gif", "wav", "tiff", "svg", "mp3", "jxl", "mp4"] { for ver in [1u8, 2] { for comp in [false, true] { for d in defs::all_defs() {
+            if comp && n != "jpeg" { continue; }
+            v.push(Case { compress: comp, ver, def: d, ..Case::base(n) });
+        }}}}
+        execute(run, "T2: {jpeg,png,gif,wav,tiff,svg,mp3,jxl,mp4} x version(2) x all 1152 definitions, plus the same compressed on jpeg", &v);
+        // T3: trust
+        let mut v = vec![];
+        for n in &names { for a in &algs { for ver in [1u8, 2] { for m in &modes {
+            v.push(Case { alg: a.to_string(), trust: true, ver, mode: m.to_string(), ..Case::base(n) });
+        }}}}
+        execute(run, "T3: asset(19) x alg(7) x version(2) x mode(3) with trust anchors (must be Trusted)", &v);
+        // T4: wide size sweep on every base format
+        let mut v = vec![];
+        for a in assets::base() { for k in [Kind::Cbor, Kind::Json] { for len in defs::sweep_lengths(true) {
+            v.push(Case { def: Def::sweep(k, len), ..Case::base(a.name) });
+        }}}
+        execute(run, "T4: base asset(13) x {cbor,json} x every payload string length in 0..=300, 65400..=65700", &v);
+    }
+    let c = Case::base("jpeg");
+    run.sample(json!({"case": c.to_json(), "definition": c.def.definition(2, Some("sha256")), "outcome": run_case(&c).class}));
+    let c = Case { alg: "ps384".into(), hash: "sha512".into(), compress: true, ver: 1, mode: "sidecar".into(), ..Case::base("mp4") };
+    run.sample(json!({"case": c.to_json(), "outcome": run_case(&c).class}));
+    let c = Case { def: Def::sweep(Kind::Cbor, 65536), ..Case::base("png") };
+    run.sample(json!({"case": c.to_json(), "outcome": run_case(&c).class}));
+    run.evals(3);
 }
